@@ -200,6 +200,21 @@ def oracle(run, want):
             if hooks != exp_hooks:
                 res.append(("hooks:terminate-hook-count-%d-expected-%d" % (hooks, exp_hooks), "conn %d: connect hook %s, terminate hook ran %d times" % (c, hook_out, hooks)))
     if "shutdown" in want and shutdown:
+        # a request whose handler returns during the grace period (Shutdown called, grace timer not fired) on a connection the
+        # client keeps open has completed: it is answered. (Cancellation is legitimate only after the grace period.)
+        sd_at = next(i for i, x in enumerate(run) if x["ev"] == "env" and x["act"] == "StartShutdown")
+        timer = any(x["ev"] == "env" and x["act"] == "TimerFire" for x in run) or any(x.get("g") == "sd.timer" for x in run if x["ev"] in ("rel", "arr"))
+        for c in (1, 2):
+            sent = [x["kind"] for x in run if x["ev"] == "env" and x["act"] == "CliSend" and x["c"] == c]
+            closed = any(x["ev"] == "env" and x["act"] in ("CliHalfClose", "CliClose") and x["c"] == c for x in run[:drain])
+            if timer or closed or any(k != "req" for k in sent):
+                continue
+            rels = [i for i, x in enumerate(run) if x["ev"] == "rel" and x["g"] == "u.handler" and x["p"][0] == c]
+            oks = [o[1] for o in end["out"][c - 1] if o[0] == "ok"]
+            for j, i in enumerate(rels):
+                if i > sd_at and j < len(end["handled"][c - 1]) and end["handled"][c - 1][j] not in oks:
+                    res.append(("shutdown:completed-request-not-answered-within-grace", "conn %d: the handler of request %d returned after Shutdown was called and before the grace period ended, the client kept the connection open, but received only %s" % (c, end["handled"][c - 1][j], end["out"][c - 1])))
+                    break
         if sd_ret is not None:
             late = [x for x in run[sd_ret:] if x["ev"] == "rel" and x["g"] == "u.handler"]
             if late:
